@@ -26,7 +26,7 @@ for pid in sorted(props):
     })
 m = {
     "version": 1,
-    "setup_cmd": "python3 tools/gen_nd.py && (cd lean && lake build Dtr dtr_model) && (cd harness && CARGO_NET_OFFLINE=true cargo build --offline)",
+    "setup_cmd": "python3 tools/gen_nd.py && python3 tools/gen_tables.py && (cd lean && lake build Dtr dtr_model) && (cd harness && CARGO_NET_OFFLINE=true cargo build --offline)",
     "hooks": {
         "guard": "cargo feature `verif-hooks` (off by default)",
         "enable": "the harness crate depends on /repo by path with features=[\"verif-hooks\"]; cargo rebuilds it from the working tree on every check",
